@@ -1,0 +1,239 @@
+//go:build verif
+
+// Contracts for package options, read by /verif/govc (contract-based deductive verification).
+// This file contains comments only; it adds no code to any build.
+
+package options
+
+// ---- C19: each option writes exactly the setting it names (and nothing else), ignores foreign objects ----
+// (skeletons generated once from the code by `govc optgen`, then reviewed against each option's documentation)
+
+//@ func WithAuthBypass$1 [C19]
+//@   modifies as(o, "*channel.Channel").AuthBypass
+//@   ensures #applies typeis(o, "*channel.Channel") ==> result == nil && as(o, "*channel.Channel").AuthBypass == true
+//@   ensures #ignored !typeis(o, "*channel.Channel") ==> result == util.ErrIgnoredOption
+
+//@ func WithAuthNoStrictKey$1 [C19]
+//@   modifies as(o, "*transport.SSHArgs").StrictKey
+//@   ensures #applies typeis(o, "*transport.SSHArgs") ==> result == nil && as(o, "*transport.SSHArgs").StrictKey == false
+//@   ensures #ignored !typeis(o, "*transport.SSHArgs") ==> result == util.ErrIgnoredOption
+
+//@ func WithAuthPassphrase$1 [C19]
+//@   modifies as(o, "*transport.SSHArgs").PrivateKeyPassPhrase
+//@   ensures #applies typeis(o, "*transport.SSHArgs") ==> result == nil && as(o, "*transport.SSHArgs").PrivateKeyPassPhrase == s
+//@   ensures #ignored !typeis(o, "*transport.SSHArgs") ==> result == util.ErrIgnoredOption
+
+//@ func WithAuthPassword$1 [C19]
+//@   modifies as(o, "*transport.Args").Password
+//@   ensures #applies typeis(o, "*transport.Args") ==> result == nil && as(o, "*transport.Args").Password == s
+//@   ensures #ignored !typeis(o, "*transport.Args") ==> result == util.ErrIgnoredOption
+
+//@ func WithAuthPrivateKey$1 [C19]
+//@   modifies as(o, "*transport.SSHArgs").PrivateKeyPath, as(o, "*transport.SSHArgs").PrivateKeyPassPhrase
+//@   ensures #applies typeis(o, "*transport.SSHArgs") ==> result == nil && as(o, "*transport.SSHArgs").PrivateKeyPath == ks && as(o, "*transport.SSHArgs").PrivateKeyPassPhrase == ps
+//@   ensures #ignored !typeis(o, "*transport.SSHArgs") ==> result == util.ErrIgnoredOption
+
+//@ func WithAuthSecondary$1 [C19]
+//@   modifies as(o, "*network.Driver").AuthSecondary
+//@   ensures #applies typeis(o, "*network.Driver") ==> result == nil && as(o, "*network.Driver").AuthSecondary == s
+//@   ensures #ignored !typeis(o, "*network.Driver") ==> result == util.ErrIgnoredOption
+
+//@ func WithAuthUsername$1 [C19]
+//@   modifies as(o, "*transport.Args").User
+//@   ensures #applies typeis(o, "*transport.Args") ==> result == nil && as(o, "*transport.Args").User == s
+//@   ensures #ignored !typeis(o, "*transport.Args") ==> result == util.ErrIgnoredOption
+
+//@ func WithChannelLog$1 [C19]
+//@   modifies as(o, "*channel.Channel").ChannelLog
+//@   ensures #applies typeis(o, "*channel.Channel") ==> result == nil && as(o, "*channel.Channel").ChannelLog == w
+//@   ensures #ignored !typeis(o, "*channel.Channel") ==> result == util.ErrIgnoredOption
+
+//@ func WithCustomTransport$1 [C19]
+//@   modifies as(o, "*transport.Args").UserImplementation
+//@   ensures #applies typeis(o, "*transport.Args") ==> result == nil && as(o, "*transport.Args").UserImplementation == i
+//@   ensures #ignored !typeis(o, "*transport.Args") ==> result == util.ErrIgnoredOption
+
+//@ func WithDefaultDesiredPriv$1 [C19]
+//@   modifies as(o, "*network.Driver").DefaultDesiredPriv
+//@   ensures #applies typeis(o, "*network.Driver") ==> result == nil && as(o, "*network.Driver").DefaultDesiredPriv == s
+//@   ensures #ignored !typeis(o, "*network.Driver") ==> result == util.ErrIgnoredOption
+
+//@ func WithDefaultLogger$1 [C19]
+//@   modifies as(o, "*generic.Driver").Logger, alloc()
+//@   ensures #applies typeis(o, "*generic.Driver") && result == nil ==> as(o, "*generic.Driver").Logger != nil
+//@   ensures #ignored !typeis(o, "*generic.Driver") ==> result == util.ErrIgnoredOption
+
+//@ func WithFailedWhenContains$1 [C19]
+//@   modifies as(o, "*generic.Driver").FailedWhenContains
+//@   ensures #applies typeis(o, "*generic.Driver") ==> result == nil && as(o, "*generic.Driver").FailedWhenContains == fw
+//@   ensures #ignored !typeis(o, "*generic.Driver") ==> result == util.ErrIgnoredOption
+
+//@ func WithFileTransportFile$1 [C19]
+//@   modifies as(o, "*transport.File").F
+//@   ensures #applies typeis(o, "*transport.File") ==> result == nil && as(o, "*transport.File").F == s
+//@   ensures #ignored !typeis(o, "*transport.File") ==> result == util.ErrIgnoredOption
+
+//@ func WithLogger$1 [C19]
+//@   modifies as(o, "*generic.Driver").Logger
+//@   ensures #applies typeis(o, "*generic.Driver") ==> result == nil && as(o, "*generic.Driver").Logger == l
+//@   ensures #ignored !typeis(o, "*generic.Driver") ==> result == util.ErrIgnoredOption
+
+//@ func WithNetconfExcludeHeader$1 [C19]
+//@   modifies as(o, "*netconf.Driver").ExcludeHeader
+//@   ensures #applies typeis(o, "*netconf.Driver") ==> result == nil && as(o, "*netconf.Driver").ExcludeHeader == true
+//@   ensures #ignored !typeis(o, "*netconf.Driver") ==> result == util.ErrIgnoredOption
+
+//@ func WithNetconfForceSelfClosingTags$1 [C19]
+//@   modifies as(o, "*netconf.Driver").ForceSelfClosingTags
+//@   ensures #applies typeis(o, "*netconf.Driver") ==> result == nil && as(o, "*netconf.Driver").ForceSelfClosingTags == true
+//@   ensures #ignored !typeis(o, "*netconf.Driver") ==> result == util.ErrIgnoredOption
+
+//@ func WithNetconfPreferredVersion$1 [C19]
+//@   let valid = s == "1.0" || s == "1.1"
+//@   modifies as(o, "*netconf.Driver").PreferredVersion
+//@   ensures #applies typeis(o, "*netconf.Driver") && valid ==> result == nil && as(o, "*netconf.Driver").PreferredVersion == s
+//@   ensures #invalid-rejected !valid ==> isErr(result, util.ErrBadOption) && as(o, "*netconf.Driver").PreferredVersion == old(as(o, "*netconf.Driver").PreferredVersion)
+//@   ensures #ignored !typeis(o, "*netconf.Driver") && valid ==> result == util.ErrIgnoredOption
+
+//@ func WithNetworkOnClose$1 [C19]
+//@   modifies as(o, "*network.Driver").OnClose
+//@   ensures #applies typeis(o, "*network.Driver") ==> result == nil && as(o, "*network.Driver").OnClose == f
+//@   ensures #ignored !typeis(o, "*network.Driver") ==> result == util.ErrIgnoredOption
+
+//@ func WithNetworkOnOpen$1 [C19]
+//@   modifies as(o, "*network.Driver").OnOpen
+//@   ensures #applies typeis(o, "*network.Driver") ==> result == nil && as(o, "*network.Driver").OnOpen == f
+//@   ensures #ignored !typeis(o, "*network.Driver") ==> result == util.ErrIgnoredOption
+
+//@ func WithOnClose$1 [C19]
+//@   modifies as(o, "*generic.Driver").OnClose
+//@   ensures #applies typeis(o, "*generic.Driver") ==> result == nil && as(o, "*generic.Driver").OnClose == f
+//@   ensures #ignored !typeis(o, "*generic.Driver") ==> result == util.ErrIgnoredOption
+
+//@ func WithOnOpen$1 [C19]
+//@   modifies as(o, "*generic.Driver").OnOpen
+//@   ensures #applies typeis(o, "*generic.Driver") ==> result == nil && as(o, "*generic.Driver").OnOpen == f
+//@   ensures #ignored !typeis(o, "*generic.Driver") ==> result == util.ErrIgnoredOption
+
+//@ func WithPassphrasePattern$1 [C19]
+//@   modifies as(o, "*channel.Channel").PassphrasePattern
+//@   ensures #applies typeis(o, "*channel.Channel") ==> result == nil && as(o, "*channel.Channel").PassphrasePattern == p
+//@   ensures #ignored !typeis(o, "*channel.Channel") ==> result == util.ErrIgnoredOption
+
+//@ func WithPasswordPattern$1 [C19]
+//@   modifies as(o, "*channel.Channel").PasswordPattern
+//@   ensures #applies typeis(o, "*channel.Channel") ==> result == nil && as(o, "*channel.Channel").PasswordPattern == p
+//@   ensures #ignored !typeis(o, "*channel.Channel") ==> result == util.ErrIgnoredOption
+
+//@ func WithPort$1 [C19]
+//@   modifies as(o, "*transport.Args").Port
+//@   ensures #applies typeis(o, "*transport.Args") ==> result == nil && as(o, "*transport.Args").Port == i
+//@   ensures #ignored !typeis(o, "*transport.Args") ==> result == util.ErrIgnoredOption
+
+//@ func WithPrivilegeLevels$1 [C19]
+//@   modifies as(o, "*network.Driver").PrivilegeLevels
+//@   ensures #applies typeis(o, "*network.Driver") ==> result == nil && as(o, "*network.Driver").PrivilegeLevels == privilegeLevels
+//@   ensures #ignored !typeis(o, "*network.Driver") ==> result == util.ErrIgnoredOption
+
+//@ func WithPromptPattern$1 [C19]
+//@   modifies as(o, "*channel.Channel").PromptPattern
+//@   ensures #applies typeis(o, "*channel.Channel") ==> result == nil && as(o, "*channel.Channel").PromptPattern == p
+//@   ensures #ignored !typeis(o, "*channel.Channel") ==> result == util.ErrIgnoredOption
+
+//@ func WithPromptSearchDepth$1 [C19]
+//@   modifies as(o, "*channel.Channel").PromptSearchDepth
+//@   ensures #applies typeis(o, "*channel.Channel") ==> result == nil && as(o, "*channel.Channel").PromptSearchDepth == i
+//@   ensures #ignored !typeis(o, "*channel.Channel") ==> result == util.ErrIgnoredOption
+
+//@ func WithReadDelay$1 [C19]
+//@   modifies as(o, "*channel.Channel").ReadDelay
+//@   ensures #applies typeis(o, "*channel.Channel") ==> result == nil && as(o, "*channel.Channel").ReadDelay == t
+//@   ensures #ignored !typeis(o, "*channel.Channel") ==> result == util.ErrIgnoredOption
+
+//@ func WithReturnChar$1 [C19]
+//@   modifies as(o, "*channel.Channel").ReturnChar
+//@   ensures #applies typeis(o, "*channel.Channel") ==> result == nil && as(o, "*channel.Channel").ReturnChar == s
+//@   ensures #ignored !typeis(o, "*channel.Channel") ==> result == util.ErrIgnoredOption
+
+//@ func WithSSHConfigFile$1 [C19]
+//@   modifies as(o, "*transport.SSHArgs").ConfigFile
+//@   ensures #applies typeis(o, "*transport.SSHArgs") ==> result == nil || (result == util.ErrFileNotFoundError && as(o, "*transport.SSHArgs").ConfigFile == old(as(o, "*transport.SSHArgs").ConfigFile))
+//@   ensures #ignored !typeis(o, "*transport.SSHArgs") ==> result == util.ErrIgnoredOption
+
+//@ func WithSSHConfigFileSystem$1 [C19]
+//@   modifies as(o, "*transport.SSHArgs").ConfigFile
+//@   ensures #applies typeis(o, "*transport.SSHArgs") ==> result == nil || (isErr(result, util.ErrBadOption) && as(o, "*transport.SSHArgs").ConfigFile == old(as(o, "*transport.SSHArgs").ConfigFile))
+//@   ensures #ignored !typeis(o, "*transport.SSHArgs") ==> result == util.ErrIgnoredOption
+
+//@ func WithSSHKnownHostsFile$1 [C19]
+//@   modifies as(o, "*transport.SSHArgs").KnownHostsFile
+//@   ensures #applies typeis(o, "*transport.SSHArgs") ==> result == nil || (result == util.ErrFileNotFoundError && as(o, "*transport.SSHArgs").KnownHostsFile == old(as(o, "*transport.SSHArgs").KnownHostsFile))
+//@   ensures #ignored !typeis(o, "*transport.SSHArgs") ==> result == util.ErrIgnoredOption
+
+//@ func WithSSHKnownHostsFileSystem$1 [C19]
+//@   modifies as(o, "*transport.SSHArgs").KnownHostsFile
+//@   ensures #applies typeis(o, "*transport.SSHArgs") ==> result == nil || (isErr(result, util.ErrBadOption) && as(o, "*transport.SSHArgs").KnownHostsFile == old(as(o, "*transport.SSHArgs").KnownHostsFile))
+//@   ensures #ignored !typeis(o, "*transport.SSHArgs") ==> result == util.ErrIgnoredOption
+
+//@ func WithStandardTransportExtraCiphers$1 [C19]
+//@   modifies as(o, "*transport.Standard").ExtraCiphers
+//@   ensures #applies typeis(o, "*transport.Standard") ==> result == nil && as(o, "*transport.Standard").ExtraCiphers == l
+//@   ensures #ignored !typeis(o, "*transport.Standard") ==> result == util.ErrIgnoredOption
+
+//@ func WithStandardTransportExtraKexs$1 [C19]
+//@   modifies as(o, "*transport.Standard").ExtraKexs
+//@   ensures #applies typeis(o, "*transport.Standard") ==> result == nil && as(o, "*transport.Standard").ExtraKexs == l
+//@   ensures #ignored !typeis(o, "*transport.Standard") ==> result == util.ErrIgnoredOption
+
+//@ func WithSystemTransportOpenArgs$1 [C19]
+//@   modifies as(o, "*transport.System").ExtraArgs
+//@   ensures #applies typeis(o, "*transport.System") ==> result == nil && as(o, "*transport.System").ExtraArgs == old(as(o, "*transport.System").ExtraArgs) ++ l
+//@   ensures #ignored !typeis(o, "*transport.System") ==> result == util.ErrIgnoredOption
+
+//@ func WithSystemTransportOpenArgsOverride$1 [C19]
+//@   modifies as(o, "*transport.System").OpenArgs
+//@   ensures #applies typeis(o, "*transport.System") ==> result == nil && as(o, "*transport.System").OpenArgs == l
+//@   ensures #ignored !typeis(o, "*transport.System") ==> result == util.ErrIgnoredOption
+
+//@ func WithSystemTransportOpenBin$1 [C19]
+//@   modifies as(o, "*transport.System").OpenBin
+//@   ensures #applies typeis(o, "*transport.System") ==> result == nil && as(o, "*transport.System").OpenBin == s
+//@   ensures #ignored !typeis(o, "*transport.System") ==> result == util.ErrIgnoredOption
+
+//@ func WithTermHeight$1 [C19]
+//@   modifies as(o, "*transport.Args").TermHeight
+//@   ensures #applies typeis(o, "*transport.Args") ==> result == nil && as(o, "*transport.Args").TermHeight == i
+//@   ensures #ignored !typeis(o, "*transport.Args") ==> result == util.ErrIgnoredOption
+
+//@ func WithTermWidth$1 [C19]
+//@   modifies as(o, "*transport.Args").TermWidth
+//@   ensures #applies typeis(o, "*transport.Args") ==> result == nil && as(o, "*transport.Args").TermWidth == i
+//@   ensures #ignored !typeis(o, "*transport.Args") ==> result == util.ErrIgnoredOption
+
+//@ func WithTimeoutOps$1 [C19]
+//@   modifies as(o, "*channel.Channel").TimeoutOps
+//@   ensures #applies typeis(o, "*channel.Channel") ==> result == nil && as(o, "*channel.Channel").TimeoutOps == t
+//@   ensures #ignored !typeis(o, "*channel.Channel") ==> result == util.ErrIgnoredOption
+
+//@ func WithTimeoutSocket$1 [C19]
+//@   modifies as(o, "*transport.Args").TimeoutSocket
+//@   ensures #applies typeis(o, "*transport.Args") ==> result == nil && as(o, "*transport.Args").TimeoutSocket == t
+//@   ensures #ignored !typeis(o, "*transport.Args") ==> result == util.ErrIgnoredOption
+
+//@ func WithTransportReadSize$1 [C19]
+//@   modifies as(o, "*transport.Args").ReadSize
+//@   ensures #applies typeis(o, "*transport.Args") ==> result == nil && as(o, "*transport.Args").ReadSize == i
+//@   ensures #ignored !typeis(o, "*transport.Args") ==> result == util.ErrIgnoredOption
+
+//@ func WithTransportType$1 [C19]
+//@   let valid = transportType == "system" || transportType == "standard" || transportType == "telnet" || transportType == "file"
+//@   modifies as(o, "*generic.Driver").TransportType
+//@   ensures #applies typeis(o, "*generic.Driver") && valid ==> result == nil && as(o, "*generic.Driver").TransportType == transportType
+//@   ensures #invalid-rejected typeis(o, "*generic.Driver") && !valid ==> isErr(result, util.ErrBadOption) && as(o, "*generic.Driver").TransportType == old(as(o, "*generic.Driver").TransportType)
+//@   ensures #ignored !typeis(o, "*generic.Driver") ==> result == util.ErrIgnoredOption
+
+//@ func WithUsernamePattern$1 [C19]
+//@   modifies as(o, "*channel.Channel").UsernamePattern
+//@   ensures #applies typeis(o, "*channel.Channel") ==> result == nil && as(o, "*channel.Channel").UsernamePattern == p
+//@   ensures #ignored !typeis(o, "*channel.Channel") ==> result == util.ErrIgnoredOption
+
